@@ -144,6 +144,7 @@ SPECS = [
     ("hdrFieldSizeOverhead", "lib/src/protocol/mux/h2.rs", r"const HEADER_FIELD_SIZE_OVERHEAD: usize = ([^;]+);", "RFC 9113 6.5.2 per-field overhead"),
     ("cfgH2MinBufferSize", "command/src/config.rs", r"pub const H2_MIN_BUFFER_SIZE: u64 = ([^;]+);", "smallest buffer_size accepted when an HTTPS listener advertises h2"),
     ("cfgDefaultBufferSize", "command/src/config.rs", r"pub const DEFAULT_BUFFER_SIZE: u64 = ([^;]+);", "buffer_size when the file does not set it"),
+    ("wkLeaseTableCap", "lib/src/metrics/mod.rs", r"pub const LEASE_TABLE_CAP: usize = ([^;]+);", "SetMetricDetail: lease table capacity (C08)"),
     ("cfgMsgCounterBits", "command/src/config.rs", r"let mut count = 0(u8|u16|u32|u64|usize|u128);", "width in bits of the message id counter of generate_config_messages"),
     # --- Answers (C02): the cause -> status literals of Mux::ready / Mux::timeout / end_stream_decision ---
     ("ansConnRetries", "lib/src/server.rs", r"pub const CONN_RETRIES: u8 = ([^;]+);", "connection attempts per request before 503"),
